@@ -524,30 +524,6 @@ Qed.
 (* ================================================================== *)
 (** * E. The tree line of a commit Goit writes is the one it reads *)
 
-Lemma drop_cr_prefix : forall p a,
-  p <> [] -> last p x00 <> c_cr -> exists a', drop_cr (p ++ a) = p ++ a'.
-Proof.
-  intros p a Hp Hl. destruct (rev a) as [|x r] eqn:E.
-  - assert (a = []) by (rewrite <- (rev_involutive a), E; reflexivity). subst a.
-    exists []. apply drop_cr_id. right. rewrite app_nil_r. exact Hl.
-  - assert (Ha : a = rev r ++ [x]) by (rewrite <- (rev_involutive a), E; reflexivity).
-    unfold drop_cr. rewrite rev_app_distr, E. cbn [app].
-    destruct (beqb x c_cr).
-    + exists (rev r). rewrite rev_app_distr, rev_involutive. reflexivity.
-    + exists a. reflexivity.
-Qed.
-
-Lemma scan_sign_line_gen : forall p a rest,
-  contains_byte c_nl p = false -> p <> [] -> last p x00 <> c_cr -> ~ In c_nl a ->
-  exists a', scan_lines (p ++ a ++ [c_nl] ++ rest) = (p ++ a') :: scan_lines rest.
-Proof.
-  intros p a rest Hp Hne Hl Ha.
-  destruct (drop_cr_prefix p a Hne Hl) as [a' Ea]. exists a'.
-  rewrite app_assoc. change ([c_nl] ++ rest) with (c_nl :: rest). unfold scan_lines.
-  rewrite scan_lines_aux_app_nl by (apply notin_app; assumption).
-  cbn [rev app]. rewrite Ea. reflexivity.
-Qed.
-
 Theorem parse_commit_tree : forall tree parent a c msg cm,
   length tree = 20 -> ~ In c_nl a -> ~ In c_nl c ->
   parse_commit (commit_text tree (option_map hex parent) a c msg) = Some cm ->
@@ -555,33 +531,28 @@ Theorem parse_commit_tree : forall tree parent a c msg cm,
 Proof.
   intros tree parent a c msg cm Htree Ha Hc H.
   unfold parse_commit, commit_text in H.
-  rewrite (scan_hex_line (str "tree ") tree _ eq_refl eq_refl) in H.
+  rewrite (lf_hex_line (str "tree ") tree _ eq_refl) in H.
   rewrite parse_headers_tree, (read_hash_hex tree Htree) in H.
   cbn [c_tree c_parents c_author c_committer c_msg] in H.
   assert (Hrest : forall c0 rest0,
-    match parse_headers (scan_lines (str "author " ++ a ++ [c_nl] ++ str "committer " ++ c ++ [c_nl] ++ rest0)) c0 with
+    match parse_headers (lf_lines (str "author " ++ a ++ [c_nl] ++ str "committer " ++ c ++ [c_nl] ++ rest0)) c0 with
     | Some (c1, ml) => Some (mkCommit (c_tree c1) (c_parents c1) (c_author c1) (c_committer c1) (join [c_nl] ml))
     | None => None
     end = Some cm ->
     match rest0 with [] => False | x :: _ => x = c_nl end -> c_tree cm = c_tree c0).
   { intros c0 rest0 H0 Hr.
-    destruct (scan_sign_line_gen (str "author ") a (str "committer " ++ c ++ [c_nl] ++ rest0) eq_refl)
-      as [a' Ea]; [discriminate | discriminate | exact Ha |].
-    rewrite Ea, parse_headers_author in H0.
-    destruct (read_sign a') as [sa|]; [|discriminate H0].
-    destruct (scan_sign_line_gen (str "committer ") c rest0 eq_refl)
-      as [c' Ec]; [discriminate | discriminate | exact Hc |].
-    rewrite Ec, parse_headers_committer in H0.
-    destruct (read_sign c') as [sc|]; [|discriminate H0].
+    rewrite (lf_sign_line (str "author ") a _ eq_refl Ha), parse_headers_author in H0.
+    destruct (read_sign a) as [sa|]; [|discriminate H0].
+    rewrite (lf_sign_line (str "committer ") c _ eq_refl Hc), parse_headers_committer in H0.
+    destruct (read_sign c) as [sc|]; [|discriminate H0].
     cbn [c_tree c_parents c_author c_committer c_msg] in H0.
     destruct rest0 as [|x rest1]; [destruct Hr|]. subst x.
-    change (c_nl :: rest1) with ([] ++ c_nl :: rest1) in H0.
-    rewrite (scan_lines_app_nl [] rest1 (fun X => X) (or_introl eq_refl)) in H0.
+    rewrite lf_lines_nl in H0.
     rewrite parse_headers_blank in H0. cbn [c_tree c_parents c_author c_committer c_msg] in H0.
     injection H0 as <-. reflexivity. }
   destruct parent as [p|]; cbn [option_map] in H.
   - rewrite <- !app_assoc in H.
-    rewrite (scan_hex_line (str "parent ") p _ eq_refl eq_refl) in H.
+    rewrite (lf_hex_line (str "parent ") p _ eq_refl) in H.
     rewrite parse_headers_parent in H.
     destruct (read_hash (hex p)) as [h|]; [|discriminate H].
     cbn [c_tree c_parents c_author c_committer c_msg] in H.
